@@ -9,6 +9,7 @@ CONSTANTS
   SlowSet = {"C", "D", "X"}
   CfgWrite = FALSE
   NCl = 1
+  MaxSend = 1
 INVARIANT MonitorQuiet
 INVARIANT OneReceivePath
 INVARIANT LockDiscipline
